@@ -65,7 +65,8 @@ PAIRS = [
      [(isarg(1), 'T'), (isarg(2), 'B'), (iscall('with_capacity'), 'X')], [(isarg(1), 'T'), (isarg(2), 'B'), (iscall('zeros'), 'X')], n_slice, n_mat),
     ('backward_substitution', D + 'substitution::backward_substitution', M + '::backward_substitution',
      [(isarg(1), 'T'), (isarg(2), 'B'), (iscall('with_capacity'), 'X')], [(isarg(1), 'T'), (isarg(2), 'B'), (iscall('zeros'), 'X')], n_slice, n_mat),
-    ('is_symmetric', U + 'is_symmetric', M + '::is_symmetric', [(isarg(1), 'A')], [(data_of_self, 'A')], n_slice, n_mat),
+    # is_symmetric is not a sibling obligation: the two predicates need not be textually alike; each must compare mirrored entries
+    # (C15 predicate) with a scale-consistent O(eps) tolerance (symmetry-tolerance below)
     ('is_positive_definite', U + 'is_positive_definite', M + '::is_positive_definite', [(isarg(1), 'A')], [(data_of_self, 'A')], n_slice, n_mat),
     ('diag', U + 'diag', M + '::diag', [(isarg(1), 'A'), (iscall('new'), 'OUT')], [(data_of_self, 'A'), (iscall('with_capacity'), 'OUT')], n_slice, n_mat),
 ]
@@ -74,8 +75,17 @@ PRECONDITION_WORDS = ('is_square', 'is_symmetric(', 'is_lower_triangular', 'is_u
 
 
 def algorithmic(lines):
+    import re as _re
     out = []
+    his = {}
     for l in lines:
+        m = _re.match(r'loop (?:rev )?(i\d+) in (.+)\.\.(.+)$', l)
+        if m:
+            his[m.group(1)] = m.group(3)
+    for l in lines:
+        m = _re.match(r'cond \((i\d+) < (.+)\)$', l)
+        if m and his.get(m.group(1)) == m.group(2):
+            continue            # tautology: the counter of `loop i in lo..hi` is below hi
         if l.startswith('cond ') and any(w in l for w in PRECONDITION_WORDS):
             continue
         if l.startswith('store var:? := '):
